@@ -48,6 +48,10 @@ CHECKS = {
    text="spec/DepFaults.tla states the fault contract (never success after a fault, only cleanup after the fault, a failed signing writes nothing, a failed image signing leaves no signature) and is model-checked by TLC over operation automata; for each real operation a fault-free run over fault-injecting crypto.Signer / afero.Fs / io.ReaderAt reveals the dependency-call sequence it issues, then every position k of that sequence is failed once (error, and short count for Write); recorded dependency calls and results are validated by TLC against spec/DepFaultsTrace.tla.",
    note="Trusted: TLC, the fault-injecting dependency wrappers. One fault per run. Image operations use a synthetic image and the repository's test.pecoff(.signed). io.ReaderAt faults are errors only.",
    technique="TLA+ fault contract; exhaustive single-fault enumeration over recorded dependency-call sequences; TLC trace validation"),
+ "C16": dict(level="model_checking", ref="5/C16",
+   text="TLC enumerates the third-party producer configurations (openssl smime / cms x -nosmimecap x -nodetach x -nocerts x -cades x key / certificate shapes incl. a CA-issued signer); each blob is produced with the OpenSSL CLI at check time, the repository's sbsign / sbvarsign artefacts (with and without signed attributes) are added; the library must parse each, re-encoding the parsed attributes must reproduce the signed bytes, and the verdicts for the signer certificate and two other certificates are judged by TLC with Pkcs7Sym's rule (spec/Pkcs7Obs.tla: rule holds and honest => true; rule does not hold => not true).",
+   note="Trusted: TLC, the OpenSSL 3 CLI as producer, the harness's independent PKCS#7 reader. Blobs without signed attributes need only parse and never verify true or crash.",
+   technique="TLC-enumerated producer configurations; observations of the code on third-party blobs judged by TLC with the symbolic rule"),
  "C17": dict(level="model_checking", ref="5/C17",
    text="spec/EfiConv.tla defines GUID text / big-endian / wire forms and UTF-16 encoding with the surrogate arithmetic; TLC checks the round-trip identities (GuidLossless, StringLossless) on every enumerated value and emits the expected nibbles, wire bytes and code units; the real conversions (Format, StringToGUID in both cases, GUIDToBytes, Bytes, WriteGUID, CmpEFIGUID, in-structure layout through SignatureData/SignatureList encode and decode, MarshalUtf16Var, ParseUtf16Var, Efistring) are compared with them case by case.",
    note="Trusted: TLC, the transcription of RFC 2781 / UEFI Appendix A in the spec. 2^128 GUIDs and all strings are sampled by boundary patterns (4032 GUIDs, 1588 strings, repeats to 4096+), not exhausted.",
